@@ -38,6 +38,8 @@ var c11Scripts = []struct {
 	{"props", `var o = {}; for (var i = 0; ; i++) { o["k" + (i % 7)] = i; delete o["k" + ((i + 3) % 7)]; _.props.tick(); }`, true},
 	{"finite", `for (var i = 0; i < 5; i++) { _.props.tick(); } return {"done": true};`, false},
 	{"emit-then-loop", `_.out({"early": 1}); for (;;) { _.props.tick(); }`, true},
+	// the loop runs when the interpreter reads the returned object, after the program has returned
+	{"getter-loop", `_.props.tick(); return {get a() { for (;;) { _.props.tick(); } }};`, true},
 	// executions that end by an ordinary failure must not leave anything behind either
 	{"throws", `_.props.tick(); throw new Error("boom");`, false},
 	{"reference-error", `_.props.tick(); return {"x": undefinedVariable + 1};`, false},
